@@ -9,7 +9,10 @@
 (V) after every call the output and the subject's object graph, pickle and deep copy are scanned for every encoding of
     every private key in play (harness/c16_scan.py); TLC (LeakEval) judges each history against the specification and
     attributes disagreements to the smallest set of named deviations that predicts exactly what was observed.
-    The same for seeded wallet histories (hd / single / multisig, watch-only export) and for wallet histories run with
+    The same for seeded wallet histories over 22 creation routes (master key / xprv / passphrase / generated, private account
+    key at the public-master depth, key paths without hardened levels, single key as WIF / hex / Key / HDKey, mixes of
+    private and public co-signer keys): a seeded prefix, every public view on the handle as left by the history, every
+    public view again on a freshly opened handle, watch-only wallets built from the public exports) and for wallet histories run with
     DB_FIELD_ENCRYPTION_KEY / DB_FIELD_ENCRYPTION_PASSWORD in subprocesses (raw sqlite files scanned after each step).
 """
 import random
@@ -91,8 +94,8 @@ def run(replay=None):
         ck.notes['simulated_histories'] = len(sim)
         for n, h in enumerate(hs + sim + [{'start': a, 'hist': b} for a, b in LISTED]):
             key_jobs.append((h['start'], h['hist'], seed * 1000003 + n))       # one seeded instantiation per history
-        # every creation route (quick: once, the first eight twice), seeded witness type and calls
-        nw = 14 * len(c16_drv.WALLET_KINDS) if thorough else len(c16_drv.WALLET_KINDS) + 8
+        # every creation route (quick: once, the first four twice), seeded witness type and calls
+        nw = 14 * len(c16_drv.WALLET_KINDS) if thorough else len(c16_drv.WALLET_KINDS) + 4
         for i in range(nw):
             wallet_jobs.append((seed % 100000 * 1000 + i, list(c16_drv.WALLET_KINDS[i % len(c16_drv.WALLET_KINDS)]),
                                 c16_drv.gen_wallet_history(rng, rng.randrange(3, 7))))
